@@ -6,7 +6,7 @@ const { withModule, errStr } = require('../lib/evalmod');
 const { canonValue, diff, diffClass, stable } = require('../lib/canon');
 const E = require('../lib/espace');
 
-const { SYM } = require('../lib/tsyms');
+const { SYM, SYM_X } = require('../lib/tsyms');
 const L_HOSTS = ['div', 'frag', 'Fragment', 'FragmentI', 'FragmentAlias2', 'FragmentStr', 'FragmentAfterDc', 'FragmentTwoImports', 'KeepAlive', 'iiconPat', 'iiconPat2'];
 const L_CHILDREN = Object.keys(E.CHILDREN);
 
@@ -19,8 +19,8 @@ const PRIMERS = {
   fragTpl: '__out.pre = () => <>{`p ${x}`}</>;',
   keepAlive: "__out.pre = () => <KeepAlive><B/></KeepAlive>;",
 };
-function tSrc(s) { return s.map((i) => SYM[i][1]).join(''); }
-function tDec(s) { return s.map((i) => SYM[i][2]).join(''); }
+function tSrc(s, x) { return s.map((i) => (x ? SYM_X : SYM)[i][1]).join(''); }
+function tDec(s, x) { return s.map((i) => (x ? SYM_X : SYM)[i][2]).join(''); }
 
 function spaces(tier) {
   const tLen = tier === 'thorough' ? 6 : 5;
@@ -30,6 +30,11 @@ function spaces(tier) {
       name: 'T:text-strings',
       bounds: { alphabet: SYM.map((s) => s[0]), max_length: tLen, placements: ['only child', 'between expression containers', 'between elements', 'only child of a fragment', 'between a comment container and an empty container', 'only child of a component (default slot content)'] },
       *gen() { for (const s of sequences(SYM.length, tLen)) yield { sp: 'T', s }; },
+    },
+    {
+      name: 'X:exotic-text',
+      bounds: { alphabet: SYM_X.map((s) => s[0]), max_length: tier === 'thorough' ? 4 : 3, note: 'form feed, vertical tab, U+2028/2029, zero-width space, BOM, astral and combining characters, numeric entities for line break / space / tab / astral, an unknown entity, &lt; and an entity-encoded brace - the same six placements' },
+      *gen() { for (const s of sequences(SYM_X.length, tier === 'thorough' ? 4 : 3)) yield { sp: 'T', s, x: true }; },
     },
     {
       name: 'L:child-lists',
@@ -69,7 +74,7 @@ function spaces(tier) {
 
 function requests(c) {
   if (c.sp === 'T') {
-    const t = tSrc(c.s);
+    const t = tSrc(c.s, c.x);
     const src = E.PRELUDE +
       `__out.only = () => <div>${t}</div>;\n` +
       `__out.between = () => <div>{x}${t}{y}</div>;\n` +
@@ -107,7 +112,7 @@ function judge(c, resps) {
       return o && o.children;
     };
     if (c.sp === 'T') {
-      const cleaned = cleanJsxText(tDec(c.s));
+      const cleaned = cleanJsxText(tDec(c.s, c.x));
       const tx = cleaned === '' ? [] : [E.TX(cleaned)];
       const a = probe('only', tx);
       const b = probe('between', [env.bound.x, ...tx, env.bound.y]);
@@ -137,9 +142,9 @@ function judge(c, resps) {
 
 function* shrink(c) {
   if (c.sp === 'T') {
-    for (let i = 0; i < c.s.length; i++) yield { sp: 'T', s: c.s.slice(0, i).concat(c.s.slice(i + 1)) };
+    for (let i = 0; i < c.s.length; i++) yield { sp: 'T', s: c.s.slice(0, i).concat(c.s.slice(i + 1)), x: c.x };
     // simplify symbols: any letter/entity → 'a'
-    for (let i = 0; i < c.s.length; i++) if (['b', '&amp;'].includes(SYM[c.s[i]][0])) { const s = c.s.slice(); s[i] = 0; yield { sp: 'T', s }; }
+    for (let i = 0; i < c.s.length; i++) if (!c.x && ['b', '&amp;'].includes(SYM[c.s[i]][0])) { const s = c.s.slice(); s[i] = 0; yield { sp: 'T', s }; }
   } else {
     if (c.pre) yield { sp: 'L', host: c.host, ch: c.ch, w: c.w };
     if (c.w) yield { sp: 'L', host: c.host, ch: c.ch, pre: c.pre };
@@ -156,7 +161,7 @@ function* shrink(c) {
 }
 
 function caseKey(c) {
-  if (c.sp === 'T') return 'T:' + c.s.map((i) => SYM[i][0]).join('.');
+  if (c.sp === 'T') return (c.x ? 'X:' : 'T:') + c.s.map((i) => (c.x ? SYM_X : SYM)[i][0]).join('.');
   return `L:${c.host}[${c.ch.map((k, i) => (c.w && c.w[0] === i ? c.w[1] + '(' + k + ')' : k)).join(',')}]${c.pre ? ' after ' + c.pre : ''}`;
 }
 
